@@ -43,8 +43,12 @@ class C05Machine(M.MCMachine):
         n = len(self.atoms)
         self.atoms.set_array("vid", np.arange(1, n + 1, dtype=np.int64))
         self.next_id = n + 1
-        self.template_snap = S.snapshot_atoms(self.mc.exchange_atoms)
-        self.template_pos = self.mc.exchange_atoms.positions.tobytes()
+        # the user's template object as it was BEFORE the driver was constructed
+        self.template = self.info["template"]
+        self.template_snap, self.template_pos = self.info["template_before"]
+        if S.diff_snapshots(self.template_snap, S.snapshot_atoms(self.template)) or self.template.positions.tobytes() != self.template_pos:
+            self.fail("template-modified:construction", "constructing the GrandCanonical driver modified the user's exchange template")
+            return
         self.n_model = int(self.mc.number_of_exchange_particles)
         self.accepted_exchanges = 0
         self.refused_exchanges = 0
@@ -151,7 +155,7 @@ class C05Machine(M.MCMachine):
         if int(self.mc.number_of_exchange_particles) != self.n_model:
             self.fail("particle-counter", f"{where}: number_of_exchange_particles={self.mc.number_of_exchange_particles} but initial + accepted insertions - accepted deletions = {self.n_model}")
             return
-        tpl = self.mc.exchange_atoms
+        tpl = self.template
         if S.diff_snapshots(self.template_snap, S.snapshot_atoms(tpl)) or tpl.positions.tobytes() != self.template_pos:
             self.fail("template-modified", f"{where}: the user's exchange template changed: {S.diff_snapshots(self.template_snap, S.snapshot_atoms(tpl))}")
             return
@@ -159,6 +163,7 @@ class C05Machine(M.MCMachine):
         for p in new_pos:
             ids[p] = self.next_id
             self.next_id += 1
+
 
     def is_nontrivial(self):
         return getattr(self, "accepted_exchanges", 0) >= 2 and getattr(self, "refused_exchanges", 0) >= 1
